@@ -21,7 +21,8 @@ Open Scope Z_scope.
 Inductive exn :=
   IndexError | TypeError | ValueError | KeyError | AssertionError | AttributeError | ZeroDivisionError
 | Unmodelled      (* an input on which PySem takes no position (see py_int_str) *)
-| OutOfFuel.      (* a `while` loop ran longer than the fuel the translator was told to give it *)
+| OutOfFuel       (* a `while` loop ran longer than the fuel the translator was told to give it *)
+| OracleExhausted. (* an oracle (the engine of play_one_game) was asked for more answers than its stream holds *)
 Inductive res (A : Type) : Type :=
 | Ok (v : A)          (* the statement / expression completed with value v *)
 | Illegal             (* raise IllegalMove(...) in game.py / raise IllegalTPS(...) in tps.py: the module's own refusal *)
@@ -257,7 +258,7 @@ Definition exn_eqb (a b : exn) : bool :=
   match a, b with
   | IndexError, IndexError | TypeError, TypeError | ValueError, ValueError | KeyError, KeyError
   | AssertionError, AssertionError | AttributeError, AttributeError | ZeroDivisionError, ZeroDivisionError
-  | Unmodelled, Unmodelled | OutOfFuel, OutOfFuel => true
+  | Unmodelled, Unmodelled | OutOfFuel, OutOfFuel | OracleExhausted, OracleExhausted => true
   | _, _ => false
   end.
 Definition py_try {A} (c : res A) (e : exn) (h : res A) : res A :=
@@ -287,6 +288,30 @@ Definition py_int_sqrt_float (n : Z) : res Z :=
 (* tuple(l) where a pair is expected (Position.stones): modelled for two elements only *)
 Definition py_tuple2_of_list {A} (l : list A) : res (A * A) :=
   match l with [a; b] => Ok (a, b) | _ => Crash Unmodelled end.
+
+(* [f(x) for x in l] where f can raise: left to right, the first exception wins *)
+Fixpoint py_mapM {A B} (f : A -> res B) (l : list A) : res (list B) :=
+  match l with
+  | [] => Ok []
+  | x :: t => y <- f x ;; r <- py_mapM f t ;; ret (y :: r)
+  end.
+
+(* list(enumerate(l)) *)
+Fixpoint py_enumerate_from {A} (i : Z) (l : list A) : list (Z * A) :=
+  match l with [] => [] | x :: t => (i, x) :: py_enumerate_from (i + 1) t end.
+Definition py_enumerate {A} (l : list A) : list (Z * A) := py_enumerate_from 0 l.
+
+(* d[k] for a dict built by a comprehension {k: v for ...}: the entries in insertion order; a later entry with an
+   equal key has replaced the earlier one, so the LAST match counts; KeyError when there is none *)
+Fixpoint py_dict_get_last {K V} (eqb : K -> K -> bool) (d : list (K * V)) (k : K) : res V :=
+  match d with
+  | [] => Crash KeyError
+  | (k', v) :: d' =>
+    match py_dict_get_last eqb d' k with
+    | Ok w => Ok w
+    | _ => if eqb k' k then Ok v else Crash KeyError
+    end
+  end.
 
 (* ---------- game.Config / Position(...) ---------- *)
 (* cls(size=, ply=, stones=, board=) over model/Tak.v's flat record *)
